@@ -3,8 +3,10 @@
 
   Model: `Model/Api.lean` (registries, copy numbers, origin numbering / back-filling).  Proved for every history of
   add_* calls (valid or rejected, any interleaving between logical files):
-  * `copy_unique_reachable`: two objects of one set with the same name never share a copy number, hence (set type,
-    origin, copy, name) identifies an object uniquely within a set and a logical file's inventory;
+  * `copy_unique_reachable`: two objects of one type and name added through one logical file never share a copy
+    number, whatever sets of that type they are in (after the repair recorded in KNOWN_FINDINGS.json; before it the
+    numbering was per set and the statement held per set only), hence (set type, origin, copy, name) identifies an
+    object uniquely within a logical file's inventory;
   * `reference_bytes`: the bytes written for a reference (OBNAME / OBJREF attribute value, or the reference that
     opens an indirectly formatted record) are the encoding of the target's identity, which the strict decoder
     returns (C06), i.e. a reference decodes to the identity of the object passed by the user;
@@ -23,10 +25,18 @@ open Dlis
 theorem copy_unique_reachable (n : Nat) (ops : List Op) (hv : ∀ op ∈ ops, op.lf < n)
     (i j : Nat) (hi : i < (run (World.init n) ops).items.length) (hj : j < (run (World.init n) ops).items.length)
     (hij : i ≠ j)
-    (hk : (run (World.init n) ops).items[i].key = (run (World.init n) ops).items[j].key)
+    (hl : (run (World.init n) ops).items[i].lf = (run (World.init n) ops).items[j].lf)
+    (hk : (run (World.init n) ops).items[i].kind = (run (World.init n) ops).items[j].kind)
     (hn : (run (World.init n) ops).items[i].name = (run (World.init n) ops).items[j].name) :
     (run (World.init n) ops).items[i].copy ≠ (run (World.init n) ops).items[j].copy :=
-  copy_unique _ (run_invariants n ops hv).2 i j hi hj hij hk hn
+  copy_unique _ (run_invariants n ops hv).2 i j hi hj hij hl hk hn
+
+/-- the configuration that used to break it (two same-named objects of one type in differently named sets of one
+logical file) -/
+example :
+    let w := run (World.init 1) [.origin 0 none [79] none .ok, .item 0 3 none [67] none .ok, .item 0 3 (some [83]) [67] none .ok,
+      .item 0 3 none [67] none .ok]
+    w.items.map (·.copy) = [0, 0, 1, 2] := by decide +kernel
 
 /-- a reference is written as the target's (origin, copy, name) and reads back as exactly that -/
 theorem reference_bytes (target : ObName) (b rest : Bytes) (h : encObname target = .ok b) :
